@@ -516,12 +516,23 @@ class RecordingCriterion:
     def __init__(self, inner, script, log, fake_time, backend, max_failures):
         self.inner, self.script, self.log = inner, script, log
         self.fake_time, self.backend, self.max_failures = fake_time, backend, max_failures
+        self.observations = []  # one dict per evaluation, see __call__
 
     def __call__(self, status):
         self.fake_time.now = self.script.clock()
         c = bool(self.inner(status))
         e = self.script.extra(self.backend.n_polls)
         crit = c or e
+        # what the documented StoppingCriterion fields refer to, read from the public TuningStatus API, so that
+        # a checker can re-evaluate the criterion independently of the implementation's answer ``c``
+        stats = status.overall_metric_statistics
+        self.observations.append(dict(
+            wallclock=float(status.wallclock_time), evaluations=int(stats.count),
+            started=int(status.num_trials_started), completed=int(status.num_trials_completed),
+            finished=int(status.num_trials_finished), cost=float(status.cost),
+            min_metrics={k: float(v) for k, v in stats.min_metrics.items()},
+            max_metrics={k: float(v) for k, v in stats.max_metrics.items()},
+            criterion=c, extra=e))
         self.log(("stop_cond", crit, crit or status.num_trials_failed > self.max_failures))
         return crit
 
@@ -605,7 +616,8 @@ def run_tuner(params, script, scheduler_factory=None, hard_limit=400):
             os.environ["SYNETUNE_FOLDER"] = old_folder
     return dict(trace=trace, outcome=outcome, smap=smap, workers=backend.worker_statuses(), counters=counters,
                 occupancy=backend.occupancy_checks, iterations=recorder.iterations, aborted=aborted,
-                n_trials=len(backend.trial_ids), copies=backend.copies, at_exit=recorder.at_exit)
+                n_trials=len(backend.trial_ids), copies=backend.copies, at_exit=recorder.at_exit,
+                criterion_obs=criterion.observations)
 
 
 # ------------------------------------------------------------------------------------------
